@@ -9,7 +9,8 @@ rows = []
 for d in sys.argv[1:]:
     d = d.rstrip("/")
     sh(f"git -C {WT} checkout -q -- . && git -C {WT} clean -fdq")
-    r = sh(f"git -C {WT} apply {d}/patch.diff")
+    pf = f"{d}/patch.rebased.diff" if os.path.exists(f"{d}/patch.rebased.diff") else f"{d}/patch.diff"
+    r = sh(f"git -C {WT} apply {pf}")
     if r.returncode:
         rows.append((d, "APPLY-FAILED", [], [])); continue
     r = sh("/venv/bin/python -m gbsa.cli --all --no-evidence", cwd="/verif", env=dict(os.environ, GBSA_REPO=WT))
